@@ -127,6 +127,9 @@ func exec(line string) string {
 	if len(key) != kl {
 		return fmt.Sprintf("ok-wrong-len %d", len(key))
 	}
+	if o.Has("want") && o.Str("want") != hx.Hex(key) {
+		return "kat-mismatch " + hx.Hex(key)
+	}
 	return "ok " + hx.Hex(key)
 }
 
